@@ -325,13 +325,14 @@ Definition toofew_adj (t : task) : task :=
 Lemma toofew_adj_spec t : toofew_adj t = if toofew t then set_close_on_finish cap lower t else t.
 Proof. unfold toofew_adj, toofew. destruct (t_clen t); auto. Qed.
 
-(* the iterable is iterated, not handed over to the channel *)
+(* the iterable is iterated, not handed over to the channel (whatever the status; after a
+   1xx/204/304 status NO iterable is handed over: fix d117733, see execute_body_iterated) *)
 Definition no_handover (kind : ikind) (ws : list bytes) : Prop :=
   is_file kind = false \/ kind = KFile false \/ ws <> [].
 
 Lemma execute_body_iterated kind chunks t ch a :
   a_kind a = kind -> a_steps a = plain_steps chunks ->
-  is_file kind = false \/ kind = KFile false \/ t_wrote_header t = true ->
+  is_file kind = false \/ kind = KFile false \/ t_wrote_header t = true \/ has_body t = false ->
   len1 kind && match t_clen t with None => true | Some _ => false end = false ->
   execute_body cap lower c r None (t, ch) a =
   match tw_seq (t, ch) (eff kind chunks) with
@@ -343,9 +344,11 @@ Proof.
   set (ho := match a_kind a with KFile _ => _ | _ => None end).
   assert (Hho : ho = None).
   { subst ho. rewrite Ek. destruct kind as [n| |sk]; auto.
-    destruct Hnh as [H|[H|H]]; [discriminate| |].
+    destruct Hnh as [H|[H|[H|H]]]; [discriminate| | |].
     - inversion H; subst sk. reflexivity.
-    - rewrite H. destruct (_ =? 0)%Z; reflexivity. }
+    - rewrite H. destruct (_ =? 0)%Z; reflexivity.
+    - (* fix d117733: no hand-over after a 1xx/204/304 status *)
+      rewrite H. destruct (_ =? 0)%Z; [reflexivity|]. destruct (t_wrote_header t); reflexivity. }
   rewrite Hho. clear Hho ho. rewrite Ek. unfold eff.
   destruct kind as [n| |sk]; cbn [is_file].
   - rewrite iterate_plain_nf by (cbn [len1] in Hl; rewrite andb_true_l; exact Hl).
